@@ -12,10 +12,10 @@ import (
 )
 
 type invC10 struct {
-	girth        int
-	cycles       []int
-	indPaths     []int
-	indCycles    []int
+	girth     int
+	cycles    []int
+	indPaths  []int
+	indCycles []int
 }
 
 func computeInvC10(m *MG) *invC10 {
